@@ -28,7 +28,7 @@ struct Op { uint8_t k, a, b, c; };
 
 enum OpGroup : unsigned {
 	OG_CORE = 1, OG_REACT = 2, OG_QUERY = 4, OG_PAYLOAD = 8, OG_MANUAL = 16, OG_REPLAY = 32, OG_SERIAL = 64, OG_COPY = 128,
-	OG_DESTROY = 256, OG_LOG = 512, OG_PLAN = 1024, OG_REPORT = 2048, OG_PAYLOAD2 = 4096, OG_PLAN_REMOVE = 8192, OG_IMM = 16384
+	OG_DESTROY = 256, OG_LOG = 512, OG_PLAN = 1024, OG_REPORT = 2048, OG_PAYLOAD2 = 4096, OG_PLAN_REMOVE = 8192, OG_IMM = 16384, OG_WITHDRAW = 32768   /* changeTo(INVALID_STATE_ID), what changeTo<Head>() amounts to: withdraws the waiting request */
 };
 
 inline bool op_processes(uint8_t k) { return k == OP_UPDATE || k == OP_REACT || k == OP_IMM || k == OP_IMMW; }
